@@ -1,8 +1,94 @@
 import Marwood.Highlight
 import Marwood.Spec.Brackets
+import Marwood.Parse
 import Driver.Wire
 namespace Marwood.Driver.Reader
 open Marwood Marwood.Wire
+
+/-! ## float oracle: what the harness observed about doubles (float text and float arithmetic are
+not modelled). Entries `K=V` separated by `;`, `-` for none. A key the model needs but the harness
+did not supply yields the poison double (bits = 2^64), reported as `oracle-missing`. -/
+
+abbrev Oracle := List (String × String)
+
+def decOracle (s : String) : Option Oracle :=
+  if s == "-" then some [] else
+  (s.splitOn ";").mapM fun e =>
+    match e.splitOn "=" with
+    | [k, v] => some (k, v)
+    | _ => none
+
+def poison : F64 := ⟨2^64⟩
+
+def Oracle.flo (o : Oracle) (k : String) : F64 :=
+  match o.lookup k with
+  | some v => (match decNum v with | some (.flo f) => f | _ => poison)
+  | none => poison
+
+def Oracle.text (o : Oracle) (k : String) : Option Text :=
+  (o.lookup k).bind decText
+
+def oracleOps (o : Oracle) : FloatOps where
+  parseF64 r s :=
+    match o.lookup s!"F{r}:{encText s}" with
+    | some "none" => none
+    | some v => (match decNum v with | some (.flo f) => some f | _ => some poison)
+    | none => some poison
+  bigRatToF64 n d := o.flo s!"Q{n}/{d}"
+  toExact f :=
+    match o.lookup ("E" ++ toHex16 f.bits) with
+    | some "none" => none
+    | some v => (match decNum v with | some n => some n | none => some (.flo poison))
+    | none => some (.flo poison)
+  toInexact n := o.flo ("I" ++ encNum n)
+  fmtExp f := (o.text ("Pe" ++ toHex16 f.bits)).getD []
+  fmtFix1 f := (o.text ("Pf" ++ toHex16 f.bits)).getD []
+  fmtShort f := (o.text ("Ps" ++ toHex16 f.bits)).getD []
+  fmtRadix r f := (o.text (s!"R{r}:" ++ toHex16 f.bits)).getD []
+
+def numPoisoned : Num → Bool
+  | .flo f => decide (f.bits ≥ 2^64)
+  | _ => false
+
+def datumPoisoned : Datum → Bool
+  | .num n => numPoisoned n
+  | .pair a d => datumPoisoned a || datumPoisoned d
+  | .vec e => datumPoisoned e
+  | _ => false
+
+def parseErrName : ParseErr → String
+  | .incomplete => "Incomplete"
+  | .unexpectedToken => "UnexpectedToken"
+  | .expectedOneTokenAfterDot => "ExpectedOneTokenAfterDot"
+  | .expectedTokenBeforeDot => "ExpectedTokenBeforeDot"
+  | .expectedListTerminator => "ExpectedListTerminator"
+  | .expectedVectorTerminator => "ExpectedVectorTerminator"
+  | .syntaxError => "SyntaxError"
+  | .unknownChar => "UnknownChar"
+  | .lex .incomplete => "Lex:Incomplete"
+  | .lex (.unexpectedToken _) => "Lex:UnexpectedToken"
+  | .lex (.unexpectedFollowing _ _) => "Lex:UnexpectedFollowing"
+
+def showParseText (r : PRes (Datum × Option Text)) : String :=
+  match r with
+  | .ok (d, rest) =>
+    if datumPoisoned d then "oracle-missing"
+    else "ok " ++ encDatum d ++ " | " ++ (match rest with | some t => encText t | none => "none")
+  | .err e => "err " ++ parseErrName e
+  | .panic _ => "panic"
+
+def showReadAll (r : Option (List Datum × Option (PRes Unit))) : String :=
+  match r with
+  | none => "fuel"
+  | some (ds, fin) =>
+    if ds.any datumPoisoned then "oracle-missing"
+    else
+      let e := match fin with
+        | none => "end"
+        | some (.err e) => "err " ++ parseErrName e
+        | some (.panic _) => "panic"
+        | some (.ok ()) => "end"
+      s!"ok {ds.length}" ++ String.join (ds.map fun d => " | " ++ encDatum d) ++ " | " ++ e
 
 def tyName : TokType → String
   | .char => "Char" | .dot => "Dot" | .false_ => "False" | .leftParen => "LeftParen"
@@ -24,6 +110,14 @@ def handle (cmd : String) (args : List String) : Option String :=
       match scan cs with
       | .ok ts => "ok " ++ showTokens ts
       | .error e => "err " ++ lexErrName e
+  | "parse-text", [t, o] => do
+      let cs ← decText t
+      let o ← decOracle o
+      pure (showParseText (parseText (oracleOps o) cs))
+  | "read-all", [t, o] => do
+      let cs ← decText t
+      let o ← decOracle o
+      pure (showReadAll (readAllF (oracleOps o) (cs.length + 2) cs))
   | "highlight", [t, i] => do
       let cs ← decText t
       let i ← i.toNat?
